@@ -9,6 +9,7 @@ BLOCK = SRC + 'expr::Block'
 MOD = SRC + 'Module'
 MS = 'samlang_ast::mir::Statement'
 ME = 'samlang_ast::mir::Expression'
+CALLEE = 'samlang_ast::mir::Callee'    # an invoked closure variable is a use like any operand
 
 
 def scope(*mods):
@@ -61,7 +62,7 @@ _add(id='T-gc', clause='C11: the GC marker reads every string-handle-bearing fie
 
 _add(id='T-dce', clause='C02: dead-code elimination counts every operand of every statement as a use',
      entry=takes('samlang_optimization::dead_code_elimination', MS), entry_desc='DCE functions taking mir::Statement',
-     roots=[MS], targets=[ME], scope=scope('samlang_optimization::dead_code_elimination'),
+     roots=[MS], targets=[ME, CALLEE], scope=scope('samlang_optimization::dead_code_elimination'),
      what='dead-code-elimination', consequence='an operand there is not counted as a use and its definition is deleted',
      floor_required=24, floor_family=8, exempt={})
 
@@ -73,7 +74,7 @@ for _mod, _fl in [('samlang_optimization::conditional_constant_propagation', 25)
                   ('samlang_optimization::loop_induction_variable_elimination', 10)]:
     _add(id='T-' + _mod.split('::')[-1], clause='C02: the pass visits every operand field of every mid-level statement',
          entry=takes(_mod, MS), entry_desc=f'functions of {_mod} taking mir::Statement',
-         roots=[MS], targets=[ME], scope=scope(_mod), what=_mod.split('::')[-1],
+         roots=[MS], targets=[ME, CALLEE], scope=scope(_mod), what=_mod.split('::')[-1],
          consequence='operands there are never rewritten / analysed by this pass, so the pass output refers to stale or '
          'unsubstituted values', floor_required=24, floor_family=_fl, exempt={})
 
@@ -81,13 +82,13 @@ for _mod, _fl in [('samlang_compiler::lir_lowering', 15),
                   ('samlang_compiler::mir_constant_param_elimination', 12)]:
     _add(id='T-' + _mod.split('::')[-1], clause='C01: the lowering pass visits every operand field of every mid-level statement',
          entry=takes(_mod, MS), entry_desc=f'functions of {_mod} taking mir::Statement',
-         roots=[MS], targets=[ME], scope=scope(_mod), what=_mod.split('::')[-1],
+         roots=[MS], targets=[ME, CALLEE], scope=scope(_mod), what=_mod.split('::')[-1],
          consequence='operands there are dropped or left unrewritten in the emitted program',
          floor_required=24, floor_family=_fl, exempt={})
 
 _add(id='T-mir_type_deduplication', clause='C01: type deduplication rewrites every operand field of every statement',
      entry=takes('samlang_compiler::mir_type_deduplication', MS), entry_desc='type dedup functions taking mir::Statement',
-     roots=[MS], targets=[ME], scope=scope('samlang_compiler::mir_type_deduplication'),
+     roots=[MS], targets=[ME, CALLEE], scope=scope('samlang_compiler::mir_type_deduplication'),
      what='type-deduplication', consequence='operands there keep a type id that was merged away',
      floor_required=24, floor_family=6,
      exempt={('samlang_ast::mir::GenenalLoopVariable', 'GenenalLoopVariable', 'initial_value'): PRE_TAILREC,
